@@ -8,13 +8,26 @@ namespace WV.Proofs.C17
 open WV WV.Gen WV.C17
 
 /-- a fired-but-not-cleared timer handle exists only in a tree whose expiry callback does not clear it -/
-def TimerOk (w : World) : Prop := w.timer = .fired → Flags.timer_expiry_clears_handle = false
+def TimerOk (w : World) : Prop :=
+  (w.timer = .fired → Flags.timer_expiry_clears_handle = false) ∧
+  -- and the Cooperator is stopped only by a tree whose Dilator.stop() stops it
+  (w.coopStopped = true → Flags.dilator_stop_stops_cooperator = true)
 
 /-- the three users of the handle are safe in the working tree: each either can never meet a fired handle
     (the expiry callback clears it) or asks `.active()` first.  Decided on the generated flags. -/
 theorem abandonSafe : (Flags.timer_expiry_clears_handle || Flags.abandon_checks_active) = true := by decide
 theorem stopUsingSafe : (Flags.timer_expiry_clears_handle || Flags.stop_using_checks_active) = true := by decide
 theorem pingSafe : (Flags.timer_expiry_clears_handle || Flags.ping_timer_checks_active) = true := by decide
+
+/-- `Dilator.stop()` of the working tree leaves the Cooperator alone -/
+theorem coopSafe : Flags.dilator_stop_stops_cooperator = false := by decide
+
+theorem TimerOk.coopRunning {w : World} (h : TimerOk w) : w.coopStopped = false := by
+  cases hc : w.coopStopped
+  · rfl
+  · have := h.2 hc
+    rw [coopSafe] at this
+    cases this
 
 structure KeepD (w w' : World) : Prop where
   hasMgr : w'.hasMgr = w.hasMgr
@@ -174,7 +187,7 @@ theorem cancelTimer_ok (b : Bool) (w : World) (hs : (Flags.timer_expiry_clears_h
   unfold cancelTimer
   split
   · rename_i hf
-    have := ht hf
+    have := ht.1 hf
     simp [this] at hs
     simp [hs]
   · rfl
@@ -187,7 +200,7 @@ theorem beginTiming_ok (w : World) (hs : (Flags.timer_expiry_clears_handle || Fl
   · rename_i hn
     split
     · rename_i hf
-      have := ht hf
+      have := ht.1 hf
       simp [this] at hs
       exact absurd hs hn
     · rfl
@@ -209,17 +222,17 @@ theorem keep_cancelTimer (b : Bool) (w : World) : KeepD w (cancelTimer b w).1 :=
   unfold cancelTimer
   split
   · split
-    · exact ⟨rfl, rfl, rfl, rfl, rfl, rfl, rfl, rfl, rfl, rfl, rfl, rfl, fun h => h, fun _ h => by cases h⟩
+    · exact ⟨rfl, rfl, rfl, rfl, rfl, rfl, rfl, rfl, rfl, rfl, rfl, rfl, fun h => h, fun h => ⟨(fun hf => by cases hf), h.2⟩⟩
     · exact KeepD.refl _
-  · exact ⟨rfl, rfl, rfl, rfl, rfl, rfl, rfl, rfl, rfl, rfl, rfl, rfl, fun h => h, fun _ h => by cases h⟩
+  · exact ⟨rfl, rfl, rfl, rfl, rfl, rfl, rfl, rfl, rfl, rfl, rfl, rfl, fun h => h, fun h => ⟨(fun hf => by cases hf), h.2⟩⟩
 
 theorem keep_beginTiming (w : World) : KeepD w (beginTiming w).1 := by
   unfold beginTiming
   split
-  · exact ⟨rfl, rfl, rfl, rfl, rfl, rfl, rfl, rfl, rfl, rfl, rfl, rfl, fun h => h, fun _ h => by cases h⟩
+  · exact ⟨rfl, rfl, rfl, rfl, rfl, rfl, rfl, rfl, rfl, rfl, rfl, rfl, fun h => h, fun h => ⟨(fun hf => by cases hf), h.2⟩⟩
   · split
     · exact KeepD.refl _
-    · exact ⟨rfl, rfl, rfl, rfl, rfl, rfl, rfl, rfl, rfl, rfl, rfl, rfl, fun h => h, fun _ h => by cases h⟩
+    · exact ⟨rfl, rfl, rfl, rfl, rfl, rfl, rfl, rfl, rfl, rfl, rfl, rfl, fun h => h, fun h => ⟨(fun hf => by cases hf), h.2⟩⟩
 
 theorem keep_startPingTimer (w : World) : KeepD w (startPingTimer w).1 := by
   unfold startPingTimer
@@ -275,6 +288,91 @@ theorem keep_mInput (i : Manager.Input) (s : String) (n : Nat) (w : World) : Kee
   · refine KeepD.trans ?_ (keep_mOuts s n _ _)
     keep_rfl
 
+theorem pauseLoop_same (rest done : List Prod) (w : World) :
+    ∃ ps, (pauseLoop done rest w).1 = { w with prods := ps } := by
+  induction rest generalizing done with
+  | nil => exact ⟨_, rfl⟩
+  | cons p rest ih =>
+    simp only [pauseLoop]
+    split
+    · exact ih _
+    · split
+      · exact ⟨_, rfl⟩
+      · exact ih _
+
+theorem resumeLoop_same (rest done : List Prod) (w : World) :
+    ∃ ps, (resumeLoop done rest w).1 = { w with prods := ps } := by
+  induction rest generalizing done with
+  | nil => exact ⟨_, rfl⟩
+  | cons p rest ih =>
+    simp only [resumeLoop]
+    split
+    · exact ih _
+    · split
+      · exact ⟨_, rfl⟩
+      · exact ih _
+
+theorem pauseAll_same (w : World) : ∃ op ps, (pauseAll w).1 = { w with outPaused := op, prods := ps } := by
+  unfold pauseAll
+  split
+  · exact ⟨w.outPaused, w.prods, rfl⟩
+  · obtain ⟨ps, e⟩ := pauseLoop_same w.prods [] { w with outPaused := true }
+    exact ⟨true, ps, e⟩
+
+theorem resumeAll_same (w : World) : ∃ op ps, (resumeAll w).1 = { w with outPaused := op, prods := ps } := by
+  unfold resumeAll
+  split
+  · exact ⟨w.outPaused, w.prods, rfl⟩
+  · obtain ⟨ps, e⟩ := resumeLoop_same w.prods [] { w with outPaused := false }
+    exact ⟨false, ps, e⟩
+
+/-- with a running Cooperator pausing / resuming the producers never raises -/
+theorem pauseLoop_ok (rest done : List Prod) (w : World) (h : w.coopStopped = false) : (pauseLoop done rest w).2 = none := by
+  induction rest generalizing done with
+  | nil => rfl
+  | cons p rest ih =>
+    simp only [pauseLoop, touchProducer, h, Bool.and_false, Bool.false_eq_true, ↓reduceIte]
+    split <;> exact ih _
+
+theorem resumeLoop_ok (rest done : List Prod) (w : World) (h : w.coopStopped = false) : (resumeLoop done rest w).2 = none := by
+  induction rest generalizing done with
+  | nil => rfl
+  | cons p rest ih =>
+    simp only [resumeLoop, touchProducer, h, Bool.and_false, Bool.false_eq_true, ↓reduceIte]
+    split <;> exact ih _
+
+theorem pauseAll_ok (w : World) (h : w.coopStopped = false) : (pauseAll w).2 = none := by
+  unfold pauseAll
+  split
+  · rfl
+  · exact pauseLoop_ok _ _ _ h
+
+theorem resumeAll_ok (w : World) (h : w.coopStopped = false) : (resumeAll w).2 = none := by
+  unfold resumeAll
+  split
+  · rfl
+  · exact resumeLoop_ok _ _ _ h
+
+theorem stopCoop_same (w : World) : ∃ b, stopCoop w = { w with coopStopped := b } := by
+  unfold stopCoop
+  split
+  · exact ⟨true, rfl⟩
+  · exact ⟨w.coopStopped, rfl⟩
+
+theorem stopCoop_timerOk (w : World) (h : TimerOk w) : TimerOk (stopCoop w) := by
+  unfold stopCoop
+  split
+  · rename_i hf; exact ⟨h.1, fun _ => hf⟩
+  · exact h
+
+theorem keep_pauseAll (w : World) : KeepD w (pauseAll w).1 := by
+  obtain ⟨op, ps, e⟩ := pauseAll_same w
+  rw [e]; keep_rfl
+
+theorem keep_resumeAll (w : World) : KeepD w (resumeAll w).1 := by
+  obtain ⟨op, ps, e⟩ := resumeAll_same w
+  rw [e]; keep_rfl
+
 theorem keep_mainFire (w : World) : KeepD w (mainFire w).1 := by
   unfold mainFire
   split
@@ -290,11 +388,13 @@ theorem keep_connectionMade (c : Nat) (w : World) : KeepD w (connectionMade c w)
   refine keep_andThen (keep_mInput _ _ _ _) ?_
   · intro v
     unfold useConnection
-    dsimp only
-    split
+    refine keep_andThen (KeepD.trans ?_ (keep_resumeAll _)) ?_
     · keep_rfl
-    · refine KeepD.trans ?_ (keep_mainFire _)
-      keep_rfl
+    · intro x
+      split
+      · exact KeepD.refl _
+      · refine KeepD.trans ?_ (keep_mainFire _)
+        keep_rfl
 
 theorem keep_connectionLost (w : World) : KeepD w (connectionLost w).1 := by
   unfold connectionLost
@@ -304,10 +404,11 @@ theorem keep_connectionLost (w : World) : KeepD w (connectionLost w).1 := by
   · intro v
     split
     · keep_rfl
-    · split
-      · refine KeepD.trans ?_ (keep_mInput _ _ _ _)
-        keep_rfl
-      · refine KeepD.trans ?_ (keep_mInput _ _ _ _)
-        keep_rfl
+    · refine keep_andThen (KeepD.trans ?_ (keep_pauseAll _)) ?_
+      · keep_rfl
+      · intro x
+        split
+        · exact keep_mInput _ _ _ _
+        · exact keep_mInput _ _ _ _
 
 end WV.Proofs.C17
